@@ -263,7 +263,11 @@ impl<T> Store<T> {
 
         stmt.bind((1, id))?;
 
-        if let Some(Ok(row)) = stmt.into_iter().next() {
+        // Nb. A row that fails to load (eg. the database is locked by a writer for longer than
+        // we are prepared to wait) is an error, not the absence of a policy: the caller would
+        // otherwise fall back to the default policy.
+        if let Some(row) = stmt.into_iter().next() {
+            let row = row?;
             let alias = row.read::<&str, _>("alias");
             let alias = alias
                 .is_empty()
@@ -289,7 +293,9 @@ impl<T> Store<T> {
 
         stmt.bind((1, id))?;
 
-        if let Some(Ok(row)) = stmt.into_iter().next() {
+        // Nb. See `follow_policy`: a blocked repository must not be taken for one without a policy.
+        if let Some(row) = stmt.into_iter().next() {
+            let row = row?;
             let policy = match row.read::<Policy, _>("policy") {
                 Policy::Allow => SeedingPolicy::Allow {
                     scope: row.read::<Scope, _>("scope"),
